@@ -62,6 +62,12 @@ func Bound(b orb.Bound, z maptile.Zoom) maptile.Set {
 	lo := maptile.At(b.Min, z)
 	hi := maptile.At(b.Max, z)
 
+	if hi.X < lo.X || lo.Y < hi.Y {
+		// empty or inverted bound, there is nothing to cover and
+		// the size hint below would wrap around.
+		return make(maptile.Set)
+	}
+
 	result := make(maptile.Set, (hi.X-lo.X+1)*(lo.Y-hi.Y+1))
 
 	for x := lo.X; x <= hi.X; x++ {
